@@ -73,10 +73,13 @@ class HEX(BinFormat):
         ela = 0
         lines = []
         for l in self.L:
+            # the most recent extended address record applies:
             if l.HEXcode == ExtendedSegmentAddress:
                 seg = l.base
+                ela = 0
             elif l.HEXcode == ExtendedLinearAddress:
                 ela = l.ela
+                seg = 0
             elif l.HEXcode == Data:
                 if ela:
                     address = (ela << 16) + l.address
